@@ -39,8 +39,8 @@ HERE = os.path.dirname(os.path.abspath(__file__))
 # (routed through report.known_match(); they print as KNOWN-FINDING once registered, until then they are skipped).
 # The two below are PREDICTED from the source (time.strptime with %b / %p reads month names and AM/PM in the LC_TIME
 # locale) and can only show up on a machine with a non-C locale installed AND a program that called setlocale().
-PENDING_FINDINGS = ["list/unix: result depends on the LC_TIME locale",
-                    "list/windows: result depends on the LC_TIME locale"]
+PENDING_FINDINGS = []    # (an LC_TIME dependence of the LIST parsers is predicted from the source but cannot be observed
+#                          on this image - no non-C locale is installed; if it is ever observed it is a violation with a replay)
 LOCAL_KNOWN = os.path.join(HERE, "c20_known_local.json")
 
 _mods = {}
